@@ -73,6 +73,15 @@ def gen_e2e(r, tier):
     # vector must not be shared between them)
     for cfg, n in (("local P8", 24000), ("bm M4 P8", 16000), ("local P4 CH2", 6000)):
         yield "%s ;; run N0=lines 8 %d ; N1=map N0 swap ; N2=repartition N1 byval ; OUT N2" % (cfg, n)
+    # a keyed redistribution applied directly to another one (no operator in between), back to the shard count of a source that
+    # is not partitioned by key: every stage has to shuffle
+    for a, b in ((4, 8), (3, 2), (2, 3), (5, 1), (2, 4)):
+        rows = progen.rows(r, 40, keys=8)
+        for src in ("N0=const %d %s" % (a, rows), "N0=reader %d 3 %s" % (a, rows)):
+            for cfg in ("local", "bm M2 P4"):
+                yield "%s ;; run %s ; N1=reshard N0 %d ; N2=reshard N1 %d ; OUT N2" % (cfg, src, b, a)
+                yield "%s ;; run %s ; N1=reshard N0 %d ; N2=reshard N1 %d ; N3=reshard N2 %d ; OUT N3" % (cfg, src, b, a, b)
+                yield "%s ;; run %s ; N1=reshuffle N0 ; N2=reshard N1 %d ; N3=reshard N2 %d ; OUT N3" % (cfg, src, b, a)
     n = 6 if tier == "quick" else 120
     for op in KEYED:
         for feed in ("src", "pipe", "result", "presult", "twostage"):
